@@ -1,9 +1,10 @@
 use crate::{
     constants::{
-        LmsTreeIdentifier, D_TOPSEED, HSS_COMPRESSED_USED_LEAFS_SIZE, ILEN, MAX_ALLOWED_HSS_LEVELS,
-        MAX_HASH_SIZE, MAX_SEED_LEN, REF_IMPL_MAX_ALLOWED_HSS_LEVELS,
-        REF_IMPL_MAX_PRIVATE_KEY_SIZE, SEED_CHILD_SEED, SEED_SIGNATURE_RANDOMIZER_SEED, TOPSEED_D,
-        TOPSEED_LEN, TOPSEED_SEED, TOPSEED_WHICH, TREE_HEIGHTS, WINTERNITZ_PARAMETERS,
+        lms_public_key_length, lms_signature_length, LmsTreeIdentifier, D_TOPSEED,
+        HSS_COMPRESSED_USED_LEAFS_SIZE, ILEN, MAX_ALLOWED_HSS_LEVELS, MAX_HASH_SIZE, MAX_SEED_LEN,
+        REF_IMPL_MAX_ALLOWED_HSS_LEVELS, REF_IMPL_MAX_PRIVATE_KEY_SIZE, SEED_CHILD_SEED,
+        SEED_SIGNATURE_RANDOMIZER_SEED, TOPSEED_D, TOPSEED_LEN, TOPSEED_SEED, TOPSEED_WHICH,
+        TREE_HEIGHTS, WINTERNITZ_PARAMETERS,
     },
     hasher::HashChain,
     hss::{definitions::HssPrivateKey, seed_derive::SeedDerive},
@@ -237,6 +238,24 @@ impl CompressedParameterSet {
                 >= WINTERNITZ_PARAMETERS[level]
     }
 
+    // The signature is assembled in an ArrayVec, which keeps its length in a u16.
+    fn is_signature_length_supported<H: HashChain>(parameters: &[HssParameter<H>]) -> bool {
+        let mut length = core::mem::size_of::<u32>();
+        for (level, parameter) in parameters.iter().enumerate() {
+            let lmots = parameter.get_lmots_parameter();
+            let hash_size = lmots.get_hash_function_output_size();
+            length += lms_signature_length(
+                hash_size,
+                lmots.get_num_winternitz_chains() as usize,
+                parameter.get_lms_parameter().get_tree_height() as usize,
+            );
+            if level > 0 {
+                length += lms_public_key_length(hash_size);
+            }
+        }
+        length <= u16::MAX as usize
+    }
+
     pub fn from_slice(data: &[u8]) -> Result<Self, ()> {
         if data.len() != REF_IMPL_MAX_ALLOWED_HSS_LEVELS {
             return Err(());
@@ -267,6 +286,10 @@ impl CompressedParameterSet {
             let lms_type = lms.get_type_id() as u8;
 
             result.0[i] = (lms_type << 4) + lmots_type;
+        }
+
+        if !Self::is_signature_length_supported(parameters) {
+            return Err(());
         }
 
         Ok(result)
@@ -304,7 +327,7 @@ impl CompressedParameterSet {
             result.extend_from_slice(&[parameter]);
         }
 
-        if result.is_empty() {
+        if result.is_empty() || !Self::is_signature_length_supported(&result) {
             return Err(());
         }
 
